@@ -317,7 +317,11 @@ func checkRewrite(name string, c *tcase, text string, in tokView, out string, ag
 
 // ---- expected lint lines (texts without multi-line protected segments) -------------------------------------
 
-type lineInfo struct{ trailing, doubled, lowerKw, blankRun, blanksAtEdge bool }
+type lineInfo struct {
+	trailing, doubled, lowerKw, blankRun, blanksAtEdge bool
+	indent                                             string // "", "space", "tab", "mixed": what the line's indentation is made of
+	inconsistent                                       bool   // L002: mixed, or of another kind than the first indented line
+}
 
 func expectedLines(c *tcase) []lineInfo {
 	lines := []lineInfo{{}}
@@ -345,9 +349,26 @@ func expectedLines(c *tcase) []lineInfo {
 			case "nlIndent", "nlMixed":
 				newline(1)
 				cur().blanksAtEdge = true // indentation made of several blanks: not asserted for L010
-			case "nl", "nlTab", "crlf":
+				cur().indent = map[string]string{"nlIndent": "space", "nlMixed": "mixed"}[c.Seps[i]]
+			case "nlTab":
+				newline(1)
+				cur().indent = "tab"
+			case "nl", "crlf":
 				newline(1)
 			}
+		}
+	}
+	// L002 names two defects: a line whose indentation mixes tabs and blanks, and a line indented with the other
+	// character than the first (unmixed) indented line of the text
+	first := ""
+	for i := range lines {
+		switch in := lines[i].indent; {
+		case in == "mixed":
+			lines[i].inconsistent = true
+		case in != "" && first == "":
+			first = in
+		case in != "" && in != first:
+			lines[i].inconsistent = true
 		}
 	}
 	return lines
@@ -381,6 +402,8 @@ func checkLint(c *tcase, text string) {
 				want, judged = e.doubled, e.doubled || !e.blanksAtEdge
 			case "L007":
 				want, judged = e.lowerKw, true
+			case "L002":
+				want, judged = e.inconsistent, true
 			}
 			if !judged {
 				continue
@@ -407,6 +430,45 @@ func checkLint(c *tcase, text string) {
 	}
 }
 
+// checkLongLines: L005 (no fix) reports a line exactly when it is longer than the maximum. The maximum is set to 24 so
+// that the model's texts have lines on both sides of it. Not judged: lines that start with a comment (the rule
+// documents that it skips comment-only lines), non-ASCII lines (bytes against characters) and a CR-LF line of exactly
+// the maximum (the carriage return is or is not part of the line).
+func checkLongLines(c *tcase, text string) {
+	if hasMulti(c) {
+		return
+	}
+	const max = 24
+	vs := lintWith(whitespace.NewLongLinesRule(max), text)
+	run.Eval(1)
+	flagged := map[int]bool{}
+	for _, v := range vs {
+		flagged[v.Location.Line] = true
+	}
+	for li, line := range strings.Split(text, "\n") {
+		visible := strings.TrimSuffix(line, "\r")
+		t := strings.TrimSpace(visible)
+		if strings.HasPrefix(t, "--") || strings.HasPrefix(t, "/*") || (visible != line && len(visible) == max) {
+			continue
+		}
+		ascii := true
+		for i := 0; i < len(line); i++ {
+			ascii = ascii && line[i] < 0x80
+		}
+		if !ascii {
+			continue
+		}
+		if want := len(visible) > max; want != flagged[li+1] {
+			kind := "not-flagged"
+			if flagged[li+1] {
+				kind = "flagged-without-defect"
+			}
+			run.Violate(core.Violation{Sig: "lint-" + kind + "|L005|" + lineContent(c, li), Clause: "each layout rule reports a line exactly when the line has the defect the rule names",
+				Case: map[string]any{"kind": "lint", "rule": "L005", "max": max, "segs": c.Segs, "seps": c.Seps, "text": text, "line": li + 1, "length": len(visible)}, Observe: fmt.Sprint(vs)})
+		}
+	}
+}
+
 // ---- language server ---------------------------------------------------------------------------------------------
 
 type lspClient struct {
@@ -420,7 +482,11 @@ type lockedBuf struct {
 	b  bytes.Buffer
 }
 
-func (l *lockedBuf) Write(p []byte) (int, error) { l.mu.Lock(); defer l.mu.Unlock(); return l.b.Write(p) }
+func (l *lockedBuf) Write(p []byte) (int, error) {
+	l.mu.Lock()
+	defer l.mu.Unlock()
+	return l.b.Write(p)
+}
 
 func newLSP() *lspClient {
 	pr, pw := io.Pipe()
@@ -575,6 +641,7 @@ func main() {
 				}
 				checkRewrite("all-fixes", c, text, in, all, fixAll, nil)
 				checkLint(c, text)
+				checkLongLines(c, text)
 				// language server: every text of <= 2 segments, a sample of the others
 				if len(c.Segs) <= 2 || ci%40 == 0 || tier == "thorough" && ci%8 == 0 {
 					if cl == nil || cl.sent > 80 {
